@@ -60,11 +60,21 @@ var profiles = []profile{
 
 func extras() []gen.Decl {
 	raw := func(s string) gen.Decl { return gen.Decl{Raw: s} }
+	lab := func(label, text, needs string) gen.Decl {
+		d := gen.Decl{Label: label, Conj: []gen.Val{{Text: text}}}
+		if needs != "" {
+			d.Needs = []string{needs}
+		}
+		return d
+	}
 	return []gen.Decl{
 		raw(`"a b": 1`), raw(`"#x": 2`), raw(`"_y": 3`), raw(`"1": 4`), raw(`"if": 5`), raw(`q: "a b": int`),
 		raw(`a: >=0 & <=255 & int`), raw(`a: >=-2147483648 & <=2147483647 & int`), raw(`a: >=0.0 & <=255.0`),
 		raw(`b: {p: a, q: p}`), raw(`b: {let M = a, p: M}`), raw(`a: 1 & (*1 | 2)`), raw(`b: (*1 | 2) & (*1 | 3) | a`),
 		raw(`#D: {x: int, y: *x | string}`),
+		// open structs that consist of one embedding / one reference plus `...`
+		lab("a", "{#D, ...}", "#D"), lab("a", "#D & {...}", "#D"), lab("#E", "{#D, ...}", "#D"),
+		lab("c", "#E & {zz: 1}", "#E"), lab("c", "a & {zz: 1}", "a"), lab("a", "{b, ...}", "b"), lab("b", "close({x: 1})", ""),
 	}
 }
 
